@@ -178,6 +178,9 @@ def run(ctx) -> Result:
     pairwise.check_graph_wiring(res, proj, "P4")
     res.not_decided.append("that some optimal consensus respects the ParCons partition, and that concatenating component "
                            "optima is optimal (theorems over costs; igraph's component order is trusted)")
+    if not res.violations:      # the end-to-end pass adds nothing to an established violation (and may not terminate on it)
+        from . import e2e
+        e2e.check(res, ctx.proj, "C06", ctx.thorough)
     return res
 
 
